@@ -21,6 +21,31 @@ Proof.
   intros x Hx. apply IH. apply ext_insert_incl; auto.
 Qed.
 
+(* the extras a dependency type requests (the raw items of its EnabledDependencies attribute) *)
+Definition extras_of_type (t : deptype) : list bytes :=
+  match dt_get t dep_key_enabled_dependencies with
+  | None => []
+  | Some es => split_on 44 es []
+  end.
+
+Lemma ext_insert_In e l x : In x (ext_insert e l) -> x = e \/ In x l.
+Proof.
+  induction l as [|y r IH]; simpl; intros H.
+  - destruct H as [H|[]]; auto.
+  - destruct (bytes_compare e y).
+    + right. exact H.
+    + destruct H as [H|H]; [right; left; exact H|]. destruct (IH H) as [A|A]; [left | right; right]; auto.
+    + destruct H as [H|H]; [left; symmetry; exact H | right; exact H].
+Qed.
+
+Lemma union_extras_In ex t x : In x (union_extras ex t) -> In x ex \/ In x (extras_of_type t).
+Proof.
+  unfold union_extras, extras_of_type. destruct (dt_get t dep_key_enabled_dependencies) as [es|]; auto.
+  generalize (split_on 44 es []). intros l. revert ex.
+  induction l as [|e l IH]; intros ex H; simpl in *; auto.
+  destruct (IH _ H) as [A|A]; auto. destruct (ext_insert_In _ _ _ A); subst; auto.
+Qed.
+
 Section Inv.
   Variable c_versions : bytes -> res (list vkey).
   Variable c_requirements : vkey -> res (list req).
@@ -74,7 +99,8 @@ Section Inv.
     co_incompat : forall v, In v (c_cands c) -> ~ In v (c_incompat c);
     co_name : forall d par, In (d, par) (c_info c) -> rq_name d = n;
     co_sound : forall d par, In (d, par) (c_info c) -> dep_of par d;
-    co_nonempty : c_info c <> []
+    co_nonempty : c_info c <> [];
+    co_extras : forall e, In e (c_extras c) -> exists d par, In (d, par) (c_info c) /\ In e (extras_of_type (rq_type d))
   }.
 
   (* ----- provider ----- *)
@@ -116,13 +142,49 @@ Section Inv.
   Lemma dep_of_type par d : dep_of par d -> vk_type (rq_key d) = version_type_requirement.
   Proof. intros (E & l & A & B & _). destruct Hwf as (_ & _ & W). eauto. Qed.
 
+  Lemma mv_name_wf rq l v : MV rq = Ok l -> In v l -> vk_name v = vk_name rq.
+  Proof.
+    unfold matching_versions. intros H Hin.
+    destruct (client_err (c_matching rq)) as [mvs| | |] eqn:C; simpl in H; try discriminate.
+    apply client_err_Ok in C.
+    destruct (negb (bytes_eqb (vk_name rq) (vk_name root))) eqn:E.
+    - inversion H; subst. destruct Hwf as (W & _). eauto.
+    - apply negb_false_iff in E. apply bytes_eqb_eq in E.
+      destruct (vk_mem root mvs); inversion H; subst; simpl in Hin; [|contradiction].
+      destruct Hin as [Hin|[]]. subst. auto.
+  Qed.
+
+  Lemma gm_name_wf pre rq l v : GM pre rq = Ok l -> In v l -> vk_name v = vk_name rq.
+  Proof.
+    unfold gm. destruct pre; [|apply mv_name_wf].
+    unfold matching_versions_pre. destruct (has_pre (vk_ver rq)); [apply mv_name_wf|].
+    intros H Hin.
+    destruct (client_err (c_versions (vk_name rq))) as [vs| | |] eqn:C; simpl in H; try discriminate.
+    apply client_err_Ok in C.
+    destruct (negb (constraint_ok (vk_ver rq))); [inversion H; subst; contradiction|].
+    destruct (filter_slice _ _ vs) as [kept| | |] eqn:F; simpl in H; try discriminate.
+    inversion H; subst. apply isort_In in Hin.
+    destruct (filter_slice_spec _ _ _ _ (le_n _) F) as [I _]. apply I in Hin as [Hin _].
+    destruct Hwf as (_ & W & _). eauto.
+  Qed.
+
+  (* a candidate of a criterion is a version of the criterion's package *)
+  Lemma cand_name_wf n c v : crit_ok n c -> In v (c_cands c) -> vk_name v = n.
+  Proof.
+    intros [A1 _ A3 _ A5 _] Hin.
+    destruct (c_info c) as [|[d par] rest] eqn:Ei; [congruence|].
+    assert (Hd : In d (reqs_of c)) by (unfold reqs_of; rewrite Ei; simpl; auto).
+    destruct (A1 _ Hin _ Hd) as (l & Gl & Hl).
+    rewrite (gm_name_wf _ _ _ _ Gl Hl). apply (A3 d par). rewrite ?Ei. simpl; auto.
+  Qed.
+
   Lemma merge_spec st rq par n' c' :
     (forall c, crit_get (criteria_of st) (rq_name rq) = Some c -> crit_ok (rq_name rq) c) ->
     dep_of par rq ->
     MERGE st rq par = Ok (n', c') ->
     let c := crit_get_or_empty (criteria_of st) (rq_name rq) in
     n' = rq_name rq /\ crit_ok n' c' /\ incl (c_info c) (c_info c') /\ incl (c_extras c) (c_extras c') /\
-    In (rq, par) (c_info c').
+    In (rq, par) (c_info c') /\ (forall e, In e (c_info c') -> In e (c_info c) \/ e = (rq, par)).
   Proof.
     intros Hold Hdep H c.
     assert (Hn : n' = rq_name rq) by (apply merge_name in H; auto). subst n'.
@@ -131,6 +193,10 @@ Section Inv.
     { unfold c, crit_get_or_empty. destruct (crit_get (criteria_of st) (rq_name rq)) as [c0|] eqn:G.
       - intros d p Hin. destruct (Hold c0 eq_refl). split; eauto.
       - simpl. intros d p []. }
+    assert (Hex : forall e, In e (c_extras c) -> exists d p, In (d, p) (c_info c) /\ In e (extras_of_type (rq_type d))).
+    { unfold c, crit_get_or_empty. destruct (crit_get (criteria_of st) (rq_name rq)) as [c0|] eqn:G.
+      - intros e Hin. destruct (Hold c0 eq_refl). eauto.
+      - simpl. intros e []. }
     unfold merge_into_criterion in H. fold c in H.
     destruct (existsb (same_info rq par) (c_info c)) eqn:Ex.
     - inversion H; subst c'. clear H.
@@ -138,6 +204,7 @@ Section Inv.
       { unfold c, crit_get_or_empty in *. destruct (crit_get (criteria_of st) (rq_name rq)) as [c0|] eqn:G; auto.
         simpl in Ex. discriminate. }
       split; auto. split; [apply incl_refl|]. split; [apply incl_refl|].
+      split; [|intros e He; auto].
       apply existsb_exists in Ex as [[d p] [Hin Hs]]. unfold same_info in Hs. simpl in Hs.
       apply andb_true_iff in Hs as [Hs H3]. apply andb_true_iff in Hs as [H1 H2].
       apply bytes_eqb_eq in H1. apply deptype_eqb_eq in H2. apply vkey_eqb_eq in H3. subst p.
@@ -148,7 +215,8 @@ Section Inv.
       subst d. auto.
     - destruct (FIND (map fst (c_info c) ++ [rq]) (c_incompat c)) as [m| | |] eqn:F; simpl in H; try discriminate.
       destruct m as [|m0 ms]; try discriminate. inversion H; subst c'. clear H. simpl.
-      split; [|split; [apply incl_appl, incl_refl | split; [apply union_extras_incl | apply in_or_app; right; left; auto]]].
+      split; [|split; [apply incl_appl, incl_refl | split; [apply union_extras_incl |
+               split; [apply in_or_app; right; left; auto | intros e He; apply in_app_or in He as [He|[He|[]]]; auto]]]].
       constructor; simpl.
       + intros v Hv. unfold reqs_of. simpl. rewrite map_app. simpl.
         apply (find_matches_spec _ _ _ F v Hv).
@@ -156,6 +224,9 @@ Section Inv.
       + intros d p Hin. apply in_app_or in Hin as [Hin|[E|[]]]; [apply Hpre in Hin; tauto | inversion E; subst; auto].
       + intros d p Hin. apply in_app_or in Hin as [Hin|[E|[]]]; [apply Hpre in Hin; tauto | inversion E; subst; auto].
       + intros E. apply app_eq_nil in E as [_ E]. discriminate.
+      + intros e He. apply union_extras_In in He as [He|He].
+        * destruct (Hex _ He) as (d & p & A & B). exists d, p. split; auto. apply in_or_app; auto.
+        * exists rq, par. split; auto. apply in_or_app; right; left; auto.
   Qed.
 
   (* ----- getCriteriaToUpdate ----- *)
@@ -248,11 +319,36 @@ Section Inv.
     destruct (X _ _ G1) as (c2 & G2 & I1 & _). exists c2. split; auto.
   Qed.
 
+  (* where an information entry comes from: its requirement was kept for a set E of extras that
+     is empty (direct dependencies) or contained in the extras of the criterion of the parent's
+     package (the extras in force when the parent was pinned; extras only grow) *)
+  Definition origin_ok (cs : criteria) : Prop :=
+    forall n c d par, crit_get cs n = Some c -> In (d, par) (c_info c) ->
+    exists E, KEEP E d = Ok true /\
+      (E = [] \/ exists cp, crit_get cs (vk_name par) = Some cp /\ incl E (c_extras cp)).
+
+  Lemma origin_step cs cs' :
+    origin_ok cs -> ext cs cs' ->
+    (forall n c' d par, crit_get cs' n = Some c' -> In (d, par) (c_info c') ->
+       (exists c, crit_get cs n = Some c /\ In (d, par) (c_info c)) \/
+       (exists E, KEEP E d = Ok true /\
+          (E = [] \/ exists cp, crit_get cs' (vk_name par) = Some cp /\ incl E (c_extras cp)))) ->
+    origin_ok cs'.
+  Proof.
+    intros O X H n c' d par G Hin.
+    destruct (H _ _ _ _ G Hin) as [(c & Gc & Hc)|New]; auto.
+    destruct (O _ _ _ _ Gc Hc) as (E & K & [E0|(cp & Gp & Ip)]).
+    - exists E. auto.
+    - destruct (X _ _ Gp) as (cp' & Gp' & _ & I2). exists E. split; auto. right. exists cp'. split; auto.
+      eapply incl_tran; eauto.
+  Qed.
+
   Record Inv (st : state) : Prop := {
     inv_crit : forall n c, crit_get (criteria_of st) n = Some c -> crit_ok n c;
     inv_pins : pins_ok (mapping st) (criteria_of st);
     inv_root : root_ok (criteria_of st);
-    inv_nodup : NoDup (map fst (mapping st))
+    inv_nodup : NoDup (map fst (mapping st));
+    inv_origin : origin_ok (criteria_of st)
   }.
 
   Lemma deps_dep_of v E deps d : DEPS v E = Ok deps -> In d deps -> dep_of v d.
@@ -264,6 +360,13 @@ Section Inv.
     exists E, l. auto.
   Qed.
 
+  Lemma deps_keep v E deps d : DEPS v E = Ok deps -> In d deps -> KEEP E d = Ok true.
+  Proof.
+    unfold get_dependencies. intros H Hin.
+    destruct (client_err (c_requirements v)) as [l| | |] eqn:C; simpl in H; try discriminate.
+    destruct (filter_slice_spec _ _ _ _ (le_n _) H) as [I _]. apply I in Hin as [A B]. auto.
+  Qed.
+
   (* ----- pinning ----- *)
   Lemma gcu_spec st cand E upd :
     (forall n c, crit_get (criteria_of st) n = Some c -> crit_ok n c) ->
@@ -271,7 +374,9 @@ Section Inv.
     exists deps, DEPS cand E = Ok deps /\ NoDup (map fst upd) /\
     (forall n c', upd_get upd n = Some c' ->
        crit_ok n c' /\ incl (c_info (crit_get_or_empty (criteria_of st) n)) (c_info c') /\
-       incl (c_extras (crit_get_or_empty (criteria_of st) n)) (c_extras c')) /\
+       incl (c_extras (crit_get_or_empty (criteria_of st) n)) (c_extras c') /\
+       (forall e, In e (c_info c') ->
+          In e (c_info (crit_get_or_empty (criteria_of st) n)) \/ exists d, In d deps /\ e = (d, cand))) /\
     (forall d, last_of deps d -> exists c', upd_get upd (rq_name d) = Some c' /\ In (d, cand) (c_info c')).
   Proof.
     intros Hc H. unfold get_criteria_to_update in H.
@@ -280,10 +385,12 @@ Section Inv.
     destruct (merge_deps_spec _ _ _ _ _ H (NoDup_nil _)) as (A & B & C). split; auto. split.
     - intros n c' G. destruct (B _ _ G) as [G'|(d & Hd & Md)]; [simpl in G'; discriminate|].
       pose proof (merge_name _ _ _ _ Md) as Hn. simpl in Hn. subst n.
-      destruct (merge_spec _ _ _ _ _ (fun c => Hc _ c) (deps_dep_of _ _ _ _ D Hd) Md) as (_ & K1 & K2 & K3 & _). auto.
+      destruct (merge_spec _ _ _ _ _ (fun c => Hc _ c) (deps_dep_of _ _ _ _ D Hd) Md) as (_ & K1 & K2 & K3 & _ & K5).
+      split; auto. split; auto. split; auto.
+      intros e He. destruct (K5 _ He) as [K|K]; auto. right. exists d. auto.
     - intros d Hl. destruct (C _ Hl) as (c' & G & Md). exists c'. split; auto.
       assert (Hd : In d deps) by (destruct Hl as (l1 & l2 & El & _); subst; apply in_or_app; right; left; auto).
-      destruct (merge_spec _ _ _ _ _ (fun c => Hc _ c) (deps_dep_of _ _ _ _ D Hd) Md) as (_ & _ & _ & _ & K). auto.
+      destruct (merge_spec _ _ _ _ _ (fun c => Hc _ c) (deps_dep_of _ _ _ _ D Hd) Md) as (_ & _ & _ & _ & K & _). auto.
   Qed.
 
   Lemma apply_pin_get st n cand upd m :
@@ -293,16 +400,16 @@ Section Inv.
   Proof. intros ND. simpl. apply fold_put_get; auto. Qed.
 
   Lemma pin_preserves_Inv st n crit cand upd :
-    Inv st -> crit_get (criteria_of st) n = Some crit ->
+    Inv st -> crit_get (criteria_of st) n = Some crit -> In cand (c_cands crit) ->
     GCU st cand (c_extras crit) = Ok upd ->
     Inv (apply_pin st n cand upd).
   Proof.
-    intros [Ic Ip Ir In_] Gn H.
+    intros [Ic Ip Ir In_ Io] Gn Hcand H.
     destruct (gcu_spec _ _ _ _ Ic H) as (deps & D & ND & U1 & U2).
     assert (X : ext (criteria_of st) (criteria_of (apply_pin st n cand upd))).
     { intros m c Gm. rewrite apply_pin_get; auto.
       destruct (upd_get upd m) as [c'|] eqn:G.
-      - exists c'. split; auto. destruct (U1 _ _ G) as (_ & K2 & K3).
+      - exists c'. split; auto. destruct (U1 _ _ G) as (_ & K2 & K3 & _).
         unfold crit_get_or_empty in K2, K3. rewrite Gm in K2, K3. auto.
       - exists c. split; auto. split; apply incl_refl. }
     constructor.
@@ -321,6 +428,17 @@ Section Inv.
         apply (pins_ok_ext _ _ _ Ip X _ _ Gp).
     - apply (root_ok_ext _ _ Ir X).
     - simpl. apply vm_set_nodup; auto.
+    - apply (origin_step _ _ Io X). intros m c' d par Gm Hin.
+      rewrite apply_pin_get in Gm; auto.
+      destruct (upd_get upd m) as [c1|] eqn:G.
+      + inversion Gm; subst c1. destruct (U1 _ _ G) as (_ & _ & _ & K4).
+        destruct (K4 _ Hin) as [Old|(d0 & Hd0 & E0)].
+        * unfold crit_get_or_empty in Old. destruct (crit_get (criteria_of st) m) as [c0|] eqn:G0; [|contradiction].
+          left. exists c0. auto.
+        * inversion E0; subst d0 par. right. exists (c_extras crit). split; [eapply deps_keep; eauto|].
+          right. rewrite (cand_name_wf _ _ _ (Ic _ _ Gn) Hcand).
+          destruct (X _ _ Gn) as (c2 & G2 & _ & I2). exists c2. auto.
+      + left. exists c'. auto.
   Qed.
 
   (* ----- backtracking ----- *)
@@ -334,7 +452,7 @@ Section Inv.
       remember (vk_union (i0 :: inc') (c_incompat crit)) as all.
       destruct (filter (fun c => negb (vk_mem c all)) (c_cands crit)) as [|m0 ms] eqn:F; try discriminate.
       apply IH in H; auto. clear IH H.
-      destruct I as [Ic Ip Ir In_].
+      destruct I as [Ic Ip Ir In_ Io].
       set (nc := {| c_info := c_info crit; c_extras := c_extras crit; c_incompat := all; c_cands := m0 :: ms |}).
       assert (X : ext (criteria_of st) (crit_put (criteria_of st) n nc)).
       { intros m c Gm. destruct (bytes_eqb m n) eqn:E.
@@ -344,7 +462,7 @@ Section Inv.
       constructor; simpl.
       + intros m c Gm. destruct (bytes_eqb m n) eqn:E.
         * apply bytes_eqb_eq in E. subst m. rewrite crit_get_put_same in Gm. inversion Gm; subst c.
-          destruct (Ic _ _ G) as [A1 A2 A3 A4 A5]. unfold nc. constructor; cbn [c_cands c_info c_extras c_incompat reqs_of]; auto.
+          destruct (Ic _ _ G) as [A1 A2 A3 A4 A5 A6]. unfold nc. constructor; cbn [c_cands c_info c_extras c_incompat reqs_of]; auto.
           -- intros v Hv. apply A1. rewrite <- F in Hv. apply filter_In in Hv. tauto.
           -- intros v Hv. rewrite <- F in Hv. apply filter_In in Hv as [_ Hv].
              apply negb_true_iff in Hv. apply vk_mem_false in Hv. auto.
@@ -352,6 +470,11 @@ Section Inv.
       + apply (pins_ok_ext _ _ _ Ip X).
       + apply (root_ok_ext _ _ Ir X).
       + auto.
+      + apply (origin_step _ _ Io X). intros m c' d par Gm Hin. left.
+        destruct (bytes_eqb m n) eqn:E.
+        * apply bytes_eqb_eq in E. subst m. rewrite crit_get_put_same in Gm. inversion Gm; subst c'.
+          exists crit. auto.
+        * apply bytes_eqb_neq in E. rewrite crit_get_put_other in Gm; auto. exists c'. auto.
   Qed.
 
   Lemma backtrack_preserves_Inv : forall fuel states states',
@@ -408,8 +531,8 @@ Section Inv.
     intros I Hk H. unfold attempt_to_pin in H.
     destruct (crit_get_of_key _ _ Hk) as (crit & G).
     unfold crit_get_or_empty in H. rewrite G in H. destruct r as [st' k'].
-    destruct (try_candidates_spec _ _ _ _ _ _ _ H) as [A|(_ & c & u & _ & B & C)]; simpl; subst; auto.
-    eapply pin_preserves_Inv; eauto.
+    destruct (try_candidates_spec _ _ _ _ _ _ _ H) as [A|(_ & c & u & Hc & B & C)]; simpl; subst; auto.
+    apply in_rev in Hc. eapply pin_preserves_Inv; eauto.
   Qed.
 
   Lemma rounds_cnt_Inv ur : forall fuel states nb st nb',
@@ -444,17 +567,19 @@ Section Inv.
   (* ----- initial criteria ----- *)
   Lemma init_spec : forall deps st st',
     (forall n c, crit_get (criteria_of st) n = Some c -> crit_ok n c) ->
-    (forall d, In d deps -> dep_of root d) ->
+    (forall d, In d deps -> dep_of root d /\ KEEP [] d = Ok true) ->
+    origin_ok (criteria_of st) ->
     INIT st deps = Ok st' ->
     (forall n c, crit_get (criteria_of st') n = Some c -> crit_ok n c) /\
     mapping st' = mapping st /\ ext (criteria_of st) (criteria_of st') /\
-    forall d, In d deps -> exists c', crit_get (criteria_of st') (rq_name d) = Some c' /\ In (d, root) (c_info c').
+    (forall d, In d deps -> exists c', crit_get (criteria_of st') (rq_name d) = Some c' /\ In (d, root) (c_info c')) /\
+    origin_ok (criteria_of st').
   Proof.
-    induction deps as [|d ds IH]; simpl; intros st st' Hc Hd H.
-    - inversion H; subst. split; auto. split; auto. split; [apply ext_refl|]. intros d [].
+    induction deps as [|d ds IH]; simpl; intros st st' Hc Hd Ho H.
+    - inversion H; subst. split; auto. split; auto. split; [apply ext_refl|]. split; auto. intros d [].
     - destruct (MERGE st d root) as [[n c]|e| |] eqn:M; try discriminate.
       2: { destruct (N.eqb e EConflict); discriminate. }
-      destruct (merge_spec _ _ _ _ _ (fun c => Hc _ c) (Hd d (or_introl eq_refl)) M) as (Hn & K1 & K2 & K3 & K4).
+      destruct (merge_spec _ _ _ _ _ (fun c => Hc _ c) (proj1 (Hd d (or_introl eq_refl))) M) as (Hn & K1 & K2 & K3 & K4 & K5).
       subst n. simpl in H.
       set (st1 := {| mapping := mapping st; criteria_of := crit_put (criteria_of st) (rq_name d) c |}) in *.
       assert (X : ext (criteria_of st) (criteria_of st1)).
@@ -466,8 +591,18 @@ Section Inv.
       { intros m x Gm. simpl in Gm. destruct (bytes_eqb m (rq_name d)) eqn:E.
         - apply bytes_eqb_eq in E. subst m. rewrite crit_get_put_same in Gm. inversion Gm; subst; auto.
         - apply bytes_eqb_neq in E. rewrite crit_get_put_other in Gm; auto. }
-      destruct (IH _ _ Hc1 (fun x Hx => Hd x (or_intror Hx)) H) as (A & B & C & D).
-      split; auto. split; auto. split; [eapply ext_trans; eauto|].
+      assert (Ho1 : origin_ok (criteria_of st1)).
+      { apply (origin_step _ _ Ho X). intros m x d0 par Gm Hin. simpl in Gm.
+        destruct (bytes_eqb m (rq_name d)) eqn:E.
+        - apply bytes_eqb_eq in E. subst m. rewrite crit_get_put_same in Gm. inversion Gm; subst x.
+          destruct (K5 _ Hin) as [Old|New].
+          + unfold crit_get_or_empty in Old.
+            destruct (crit_get (criteria_of st) (rq_name d)) as [c0|] eqn:G0; [|contradiction].
+            left. exists c0. auto.
+          + inversion New; subst d0 par. right. exists []. split; auto. apply (Hd d (or_introl eq_refl)).
+        - apply bytes_eqb_neq in E. rewrite crit_get_put_other in Gm; auto. left. exists x. auto. }
+      destruct (IH _ _ Hc1 (fun x Hx => Hd x (or_intror Hx)) Ho1 H) as (A & B & C & D & O').
+      split; auto. split; auto. split; [eapply ext_trans; eauto|]. split; auto.
       intros x [E|Hx]; auto. subst x.
       assert (G1 : crit_get (criteria_of st1) (rq_name d) = Some c) by (simpl; apply crit_get_put_same).
       destruct (C _ _ G1) as (c2 & G2 & I1 & _). exists c2. split; auto.
@@ -480,10 +615,12 @@ Section Inv.
     destruct (negb (N.eqb (vk_type root) version_type_concrete)); try discriminate.
     destruct ROOTDEPS as [deps| | |] eqn:D; simpl in H; try discriminate.
     destruct (INIT empty_state deps) as [st0| | |] eqn:I0; simpl in H; try discriminate.
-    assert (Hd : forall d, In d deps -> dep_of root d) by (intros d; eapply deps_dep_of; eauto).
+    assert (Hd : forall d, In d deps -> dep_of root d /\ KEEP [] d = Ok true)
+      by (intros d Hin; split; [eapply deps_dep_of; eauto | eapply deps_keep; eauto]).
     assert (He : forall n c, crit_get (criteria_of empty_state) n = Some c -> crit_ok n c)
       by (intros n c G; discriminate).
-    destruct (init_spec _ _ _ He Hd I0) as (A & B & _ & C).
+    assert (Ho : origin_ok (criteria_of empty_state)) by (intros n c d par G; discriminate).
+    destruct (init_spec _ _ _ He Hd Ho I0) as (A & B & _ & C & O).
     assert (Inv st0).
     { constructor; auto.
       - rewrite B. intros p v G. discriminate.
